@@ -71,7 +71,7 @@ def behaviours(ctx, sd, plan):
     return out, states, trans
 
 
-def run(ctx, plan, arenas=None, dump_every=1):
+def run(ctx, plan, arenas=None, dump_every=1, dump_last_every=None):
     """Returns dict with go mismatches, tlc bad lines, counts."""
     sd = tlc.stage(ctx, "enc")
     arenas = arenas or ARENAS
@@ -85,7 +85,7 @@ def run(ctx, plan, arenas=None, dump_every=1):
         json.dump(arenas, f)
     drv = gobuild.build(ctx, "encbuild", also=["vwalk"])
     df = os.path.join(sd, "dumps.ndjson")
-    rc, out, err = gobuild.run_driver(ctx, drv, ["run", bf, af, df], timeout=3400, env={"VERIF_DUMP_EVERY": str(dump_every), "VERIF_DUMP_LAST_EVERY": "1" if ctx.quick else "4"})
+    rc, out, err = gobuild.run_driver(ctx, drv, ["run", bf, af, df], timeout=3400, env={"VERIF_DUMP_EVERY": str(dump_every), "VERIF_DUMP_LAST_EVERY": str(dump_last_every or (1 if ctx.quick else 4))})
     if rc != 0:
         raise Inconclusive("encbuild died rc=%d: %s" % (rc, err[-3000:]))
     go_mis, summ = [], None
